@@ -13,6 +13,25 @@ logging statements the configuration model (Model/LogConf.v) ranges over:
   SET_LEVEL_SETS_HANDLERS            DataShardLogger.set_level(level): logger.setLevel(level) and handler.setLevel(level) for each
                                      handler of the library logger (body pinned statement by statement)
 
+SCOPE.  The checks above are LEXICAL and cover the module garbage_collector.py.  The modules the collector calls into are
+covered by a second, counting scan (scope_scan below) over SCOPE_MODULES = file_manager, metadata_manager, storage_backend and
+the helper modules those import (s3_consistency, integrity, disk_utils): every function of these modules that is REACHABLE BY
+NAME from garbage_collector.py (an identifier -- attribute or name, called or not -- that is the name of a function / class of a
+scope module reaches it; a reached class reaches its dunder methods; nested functions belong to their enclosing function; module
+level statements always count) is scanned, and these tables are emitted (nothing is refused here: the Coq side states what the
+lists ARE, Props/C05.v C05_conf_not_consulted, and stops compiling when they change):
+
+  GC_REACH            : list (string * string)             (module, function) reached
+  GC_CALLEE_LOG_SITES : list (string * string * Z)         logging statements of reached functions: (module, function, level)
+  GC_CONF_READS       : list (string * string * string)    (module, function, what): every use of `logger` / `logging` in a reached
+                                                           function that is not a logging statement with purely observing arguments
+  GC_ENV_READS        : list (string * string * string)    (module, function, variable) os.environ / os.getenv in a reached function
+  GC_UNREACHED_ENV_READS                                   the same for the functions of the scope modules that are NOT reached
+                                                           (create_storage_backend): the scan does see environment reads
+NOT covered: modules outside SCOPE_MODULES (fastavro, boto3, the standard library, data_structures / avro_schemas which hold no
+logger), dynamic dispatch the name-based reachability cannot see (getattr with a computed name), and __str__ / __format__ of the
+objects a logging statement interpolates.
+
 Fail closed (Unsupported) when, anywhere in garbage_collector.py,
   * the name `logger` is used other than as the receiver of a STATEMENT `logger.debug/info/warning/error/exception/critical(...)`
     (so: isEnabledFor, getEffectiveLevel, .level, .disabled, passing the logger on, a logging call inside an expression);
@@ -42,6 +61,11 @@ def _pure(e: ast.AST, where: str) -> None:
     if isinstance(e, ast.Subscript):
         _pure(e.value, where)
         return _pure(e.slice, where)
+    if isinstance(e, ast.Slice):
+        for v in (e.lower, e.upper, e.step):
+            if v is not None:
+                _pure(v, where)
+        return
     if isinstance(e, ast.JoinedStr):
         for v in e.values:
             _pure(v, where)
@@ -194,6 +218,152 @@ def check_set_level(lc: ast.Module) -> None:
         raise Unsupported("DataShardLogger.get_logger: default name is not a string literal")
 
 
+
+SCOPE_MODULES = ["file_manager", "metadata_manager", "storage_backend", "s3_consistency", "integrity", "disk_utils"]
+PURE_CALLS_CALLEE = PURE_CALLS | {"str", "repr", "int", "float"}
+
+
+def _functions(mod: ast.Module) -> Dict[str, Tuple[ast.AST, str]]:
+    """qualified name -> (node, class name or ''): top-level functions and methods; nested functions stay inside their parent."""
+    out: Dict[str, Tuple[ast.AST, str]] = {}
+    for s in mod.body:
+        if isinstance(s, (ast.FunctionDef, ast.AsyncFunctionDef)):
+            out[s.name] = (s, "")
+        elif isinstance(s, ast.ClassDef):
+            for m in s.body:
+                if isinstance(m, (ast.FunctionDef, ast.AsyncFunctionDef)):
+                    out[f"{s.name}.{m.name}"] = (m, s.name)
+    return out
+
+
+def _identifiers(node: ast.AST) -> set:
+    ids = set()
+    for n in ast.walk(node):
+        if isinstance(n, ast.Attribute):
+            ids.add(n.attr)
+        elif isinstance(n, ast.Name):
+            ids.add(n.id)
+        elif isinstance(n, ast.ImportFrom):
+            ids.update(a.name for a in n.names)
+    return ids
+
+
+def _is_pure(e: ast.AST) -> bool:
+    global PURE_CALLS
+    saved = PURE_CALLS
+    PURE_CALLS = PURE_CALLS_CALLEE
+    try:
+        _pure(e, "")
+        return True
+    except Unsupported:
+        return False
+    finally:
+        PURE_CALLS = saved
+
+
+def _scan_body(mname: str, fname: str, nodes: List[ast.AST]):
+    """(log sites, conf reads, env reads) of one function body / of the module-level statements."""
+    sites, conf, env = [], [], []
+    ok_logger: set = set()
+    for top in nodes:
+        for n in ast.walk(top):
+            if (isinstance(n, ast.Expr) and isinstance(n.value, ast.Call) and isinstance(n.value.func, ast.Attribute)
+                    and isinstance(n.value.func.value, ast.Name) and n.value.func.value.id == "logger" and n.value.func.attr in LEVEL_OF):
+                call = n.value
+                ok_logger.add(id(call.func.value))
+                sites.append((n.lineno, mname, fname, LEVEL_OF[call.func.attr]))
+                if not all(_is_pure(a) for a in call.args) or any(
+                        kw.arg not in ("exc_info", "stack_info") or not isinstance(kw.value, ast.Constant) for kw in call.keywords):
+                    conf.append((n.lineno, mname, fname, f"logger.{call.func.attr}: an argument is not a pure observation"))
+            if (isinstance(n, ast.Assign) and len(n.targets) == 1 and isinstance(n.targets[0], ast.Name) and n.targets[0].id == "logger"
+                    and fname == "<module>" and isinstance(n.value, ast.Call) and isinstance(n.value.func, ast.Name)
+                    and n.value.func.id == "get_logger" and len(n.value.args) == 1 and isinstance(n.value.args[0], ast.Name)
+                    and n.value.args[0].id == "__name__"):
+                ok_logger.add(id(n.targets[0]))          # logger = get_logger(__name__): logging.getLogger(__name__) (logging_config pinned below)
+    named_env: set = set()
+    def _os_attr(e: ast.AST, attr: str) -> bool:
+        return isinstance(e, ast.Attribute) and isinstance(e.value, ast.Name) and e.value.id == "os" and e.attr == attr
+    for top in nodes:
+        for n in ast.walk(top):
+            var = None
+            if isinstance(n, ast.Call) and _os_attr(n.func, "getenv") and n.args and isinstance(n.args[0], ast.Constant):
+                var, inner = str(n.args[0].value), n.func
+            elif (isinstance(n, ast.Call) and isinstance(n.func, ast.Attribute) and n.func.attr == "get" and _os_attr(n.func.value, "environ")
+                  and n.args and isinstance(n.args[0], ast.Constant)):
+                var, inner = str(n.args[0].value), n.func.value
+            elif isinstance(n, ast.Subscript) and _os_attr(n.value, "environ") and isinstance(n.slice, ast.Constant):
+                var, inner = str(n.slice.value), n.value
+            if var is not None:
+                named_env.add(id(inner))
+                env.append((n.lineno, mname, fname, var))
+    for top in nodes:
+        for n in ast.walk(top):
+            if isinstance(n, ast.Name) and n.id == "logger" and id(n) not in ok_logger:
+                conf.append((n.lineno, mname, fname, "logger used other than as the receiver of a logging statement"))
+            if isinstance(n, ast.Name) and n.id == "logging":
+                conf.append((n.lineno, mname, fname, "logging module used"))
+            if isinstance(n, ast.Attribute) and isinstance(n.value, ast.Name) and n.value.id == "os" and n.attr in ("environ", "getenv", "getenvb", "putenv") \
+                    and id(n) not in named_env:
+                env.append((n.lineno, mname, fname, "os." + n.attr))
+    return sites, conf, env
+
+
+def scope_scan(src: str, gc: ast.Module):
+    mods = {m: parse_module(src, m + ".py") for m in SCOPE_MODULES}
+    funcs = {m: _functions(mod) for m, mod in mods.items()}
+    classes = {m: {s.name for s in mod.body if isinstance(s, ast.ClassDef)} for m, mod in mods.items()}
+    reached: Dict[Tuple[str, str], ast.AST] = {}
+    work: List[ast.AST] = [gc]
+
+    def reach(m: str, q: str) -> None:
+        if (m, q) not in reached:
+            reached[(m, q)] = funcs[m][q][0]
+            work.append(funcs[m][q][0])
+
+    while work:
+        node = work.pop()
+        ids = _identifiers(node)
+        for m in SCOPE_MODULES:
+            for q, (_fn, cls) in funcs[m].items():
+                bare = q.split(".")[-1]
+                if bare in ids and not (bare.startswith("__") and bare.endswith("__")):
+                    reach(m, q)
+                    if cls:
+                        ids.add(cls)
+            for c in classes[m]:
+                if c in ids:
+                    for q, (_fn, cls) in funcs[m].items():
+                        if cls == c and q.split(".")[-1].startswith("__"):
+                            reach(m, q)
+    sites, conf, env, unreached_env = [], [], [], []
+    for m in SCOPE_MODULES:
+        top = [s for s in mods[m].body if not isinstance(s, (ast.FunctionDef, ast.AsyncFunctionDef, ast.ClassDef))]
+        top += [c for s in mods[m].body if isinstance(s, ast.ClassDef) for c in s.body if not isinstance(c, (ast.FunctionDef, ast.AsyncFunctionDef))]
+        s_, c_, e_ = _scan_body(m, "<module>", top)
+        sites += s_; conf += c_; env += e_
+        for q, (fn, _cls) in funcs[m].items():
+            s_, c_, e_ = _scan_body(m, q, [fn])
+            if (m, q) in reached:
+                sites += s_; conf += c_; env += e_
+            else:
+                unreached_env += e_
+    order = lambda rows: [r[1:] for r in sorted(rows, key=lambda r: (SCOPE_MODULES.index(r[1]), r[0]))]
+    return sorted(reached, key=lambda k: (SCOPE_MODULES.index(k[0]), k[1])), order(sites), order(conf), order(env), order(unreached_env)
+
+
+def check_get_logger(lc: ast.Module) -> None:
+    """logging_config.get_logger(name) is DataShardLogger.get_logger(name), which returns logging.getLogger(name) after a setup that
+    touches the library logger only: the callee modules' `logger = get_logger(__name__)` is a module logger like the collector's."""
+    fn = find_function(lc, "get_logger")
+    body = [ast.dump(s, annotate_fields=False) for s in strip_docstring(fn.body)]
+    if body != ["Return(Call(Attribute(Name('DataShardLogger', Load()), 'get_logger', Load()), [Name('name', Load())], []))"]:
+        raise Unsupported(f"logging_config.get_logger changed: {body}")
+    gl = find_function(lc, "get_logger", cls="DataShardLogger")
+    last = ast.dump(strip_docstring(gl.body)[-1], annotate_fields=False)
+    if last != "Return(Call(Attribute(Name('logging', Load()), 'getLogger', Load()), [Name('name', Load())], []))":
+        raise Unsupported(f"DataShardLogger.get_logger no longer returns logging.getLogger(name): {last}")
+
+
 @generator("GenGCLog.v")
 def gen_gclog(src: str) -> str:
     gc = parse_module(src, "garbage_collector.py")
@@ -210,6 +380,12 @@ def gen_gclog(src: str) -> str:
     if pkg != name:
         raise Unsupported(f"the library logger {name!r} is not the package {pkg!r}: module loggers (getLogger(__name__)) are then not its children")
     rows = "; ".join(f"({coq_str(f)}, {lv})" for f, lv in sites)
+    check_get_logger(lc)
+    reach, csites, conf, env, unreached_env = scope_scan(src, gc)
+    t2 = lambda rows: "[" + "; ".join(f"({coq_str(a)}, {coq_str(b)})" for a, b in rows) + "]"
+    t3s = lambda rows: "[" + "; ".join(f"({coq_str(a)}, {coq_str(b)}, {coq_str(c)})" for a, b, c in rows) + "]"
+    t3z = lambda rows: "[" + "; ".join(f"({coq_str(a)}, {coq_str(b)}, {c})" for a, b, c in rows) + "]"
+    env_vars = "[" + "; ".join(coq_str(v) for v in sorted({c for _a, _b, c in env})) + "]"
     return f"""(* GENERATED by translator/gen_gclog.py from src/datashard/garbage_collector.py and logging_config.py -- do not edit *)
 From Coq Require Import ZArith List String.
 Import ListNotations.
@@ -219,7 +395,16 @@ Open Scope Z_scope.
 (* every logging statement of garbage_collector.py, in source order: (function, level).  Each was checked to be a STATEMENT whose
    arguments are pure observations; no other use of `logger` / `logging` / os.environ exists in the module. *)
 Definition GC_LOG_SITES : list (string * Z) := [{rows}].
-Definition GC_ENV_VARS : list string := [].
+
+(* --- the modules the collector calls into (counting scan, name-based reachability from garbage_collector.py; see gen_gclog.py) --- *)
+Definition GC_SCOPE_MODULES : list string := [{"; ".join(coq_str(m) for m in SCOPE_MODULES)}].
+Definition GC_REACH : list (string * string) := {t2(reach)}.
+Definition GC_CALLEE_LOG_SITES : list (string * string * Z) := {t3z(csites)}.
+Definition GC_CONF_READS : list (string * string * string) := {t3s(conf)}.
+Definition GC_ENV_READS : list (string * string * string) := {t3s(env)}.
+Definition GC_UNREACHED_ENV_READS : list (string * string * string) := {t3s(unreached_env)}.
+(* environment variables read by garbage_collector.py (none: refused above) or by a reached function of the scope modules *)
+Definition GC_ENV_VARS : list string := {env_vars}.
 
 (* logging_config.DataShardLogger._setup_logging / set_level *)
 Definition LIB_LOGGER_NAME : string := {coq_str(name)}.
